@@ -216,7 +216,9 @@ def kitty_unit(method, mode, override=None):
     image's own effective method is then the OTHER one, so that the override is what decides"""
     tag = f"{method},{mode}" + (f",override={override}" if override else "")
 
-    @unit(("C01", "C03", "C20"), f"kitty:KittyImage._render_image[{tag}]")
+    c11 = mode == "RGB" and override is None
+
+    @unit(("C01", "C03", "C20", "C11") if c11 else ("C01", "C03", "C20"), f"kitty:KittyImage._render_image[{tag}]")
     def u(ctx, method=method, mode=mode):
         eng = ctx.engine(f"C01/kitty._render_image[{tag}]", "C01")
         eng.default_replay = {"C01": "C01.render", "C03": "C03.render", "C11": "C11.fds", "C20": "C20.method_override"}
@@ -374,7 +376,9 @@ def kitty_unit(method, mode, override=None):
                               z3.BoolVal(g["parser"] == "ground"), g["sgr_default"], to_z3(g.get("erased_to", 0)) == 0,
                               # the strip of line i has been placed on line i
                               z3.BoolVal(g.get("img") is not None) if g.get("img") is None else
-                              z3.And(to_z3(g["img"][0]) == r0 + i, to_z3(g["img"][1]) == r0 + i + 1, to_z3(g["img"][2]) == 0, to_z3(g["img"][3]) == rw),
+                              z3.And(to_z3(g["img"][0]) == r0 + i, to_z3(g["img"][1]) == r0 + i + 1, to_z3(g["img"][2]) == 0, to_z3(g["img"][3]) == rw,
+                                     # ... and nothing placed so far reaches below it (what a delete-at-cursor on the next line may rely on)
+                                     to_z3(g["img_bottom"]) == r0 + i + 1),
                               s.ghost["tx_count"] == i + 1, s.ghost["raw_covered"] == (i + 1) * bpl_inv, s.H(raw)["pos"] == (i + 1) * bpl_inv,
                               Eq(s.H(s.lookup("control_data"))["v"], ch), Eq(s.H(s.lookup("control_data"))["r"], 1),
                               to_z3(s.lookup("bytes_per_line")) == bpl_inv)
@@ -383,6 +387,7 @@ def kitty_unit(method, mode, override=None):
                 g = havoc_vt(s, tag)
                 g["erased_to"] = z3.Int(f"erased_to!{tag}")
                 g["img"] = tuple(z3.Int(f"img{j}!{tag}") for j in range(4))
+                g["img_bottom"] = z3.Int(f"img_bottom!{tag}")
                 s.ghost["tx_count"], s.ghost["raw_covered"] = z3.Int(f"txc!{tag}"), z3.Int(f"rawc!{tag}")
                 s.H(s.lookup("raw_image"))["pos"] = z3.Int(f"rawpos!{tag}")
                 s.env["trans"] = Opaque("trans")
@@ -397,7 +402,11 @@ def kitty_unit(method, mode, override=None):
             eng.invariants = {2: LoopSpec(inv, havoc)}
         blend, mix = z3.Bools("blend mix")
         st.env.update(self=self_, img=img0, alpha=Opaque("alpha"), frame=z3.Bool("frame"), method=override, z_index=zidx, mix=mix, compress=level, blend=blend)
+        if c11:
+            frame_image_world(eng, "KittyImage")
         outs = run_function(eng, ctx.fn(KITTY, "KittyImage._render_image"), st)
+        if c11:
+            frame_image_exits(eng, outs, img0, z3.Bool("frame"))
         for kind, val, s in outs:
             if kind != "return":
                 eng.oblige(f"no-exception:{getattr(val, 'cls', kind)}", s, False, kind="raise")
